@@ -2,7 +2,7 @@
    the first matching one of the SORTED expanded usages: the choice is independent of the
    order in which the hash set yields them, for every set of usages and every matcher. *)
 From Coq Require Import List String Bool Permutation.
-From RashV Require Import Order OrderProofs Tail TailProofs.
+From RashV Require Import Order OrderProofs Tail TailProofs OptLookup.
 Import ListNotations.
 
 Theorem C09_sorted_choice_is_order_independent :
@@ -31,3 +31,20 @@ Theorem C09_tail_first_fitting_usage_wins : forall t argv us,
   | None => exists ds, In ds us /\ List.length argv = List.length ds /\ bind_list t argv ds ds = None
   end.
 Proof. exact first_match_spec. Qed.
+
+(* K49 (fixed): which description answers for an option name.  Options::find takes the SMALLEST matching description in
+   the derived order of OptionArg - shown here to be a total order - so the answer is the same for every order in which
+   the hash set yields the descriptions; on a table without shared names it is the lookup the Tail mirror uses *)
+Theorem C09_option_lookup_is_order_independent : forall t t' arg, Permutation t t' -> ofind_min t arg = ofind_min t' arg.
+Proof. exact option_lookup_is_order_independent. Qed.
+Theorem C09_option_lookup_on_distinct_names : forall t arg,
+  (forall x y, In x t -> In y t -> oeq (od_long x) arg = true -> oeq (od_long y) arg = true -> x = y) ->
+  (forall x y, In x t -> In y t -> oeq (od_short x) arg = true -> oeq (od_short y) arg = true -> x = y) ->
+  ofind_min t arg = ofind t arg.
+Proof. exact option_lookup_unique_is_find. Qed.
+(* the pre-fix lookup (first match of the enumeration) on `-v --verbose` / `-v --version` *)
+Theorem C09_first_match_lookup_refuted_K49 :
+  let a := {| od_kind := OSimple; od_short := Some "-v"; od_long := Some "--verbose" |} in
+  let b := {| od_kind := OSimple; od_short := Some "-v"; od_long := Some "--version" |} in
+  ofind_min [a; b] "-v" = Some a /\ ofind_min [b; a] "-v" = Some a /\ ofind [a; b] "-v" <> ofind [b; a] "-v".
+Proof. exact shared_short_name. Qed.
